@@ -3,7 +3,7 @@
    functions that respect numeric equality of their arguments.  The third argument of [run_world] / [step]
    is [shared_key]: true = source with the repair pending_fixes/C14_1 (proxy shares the key cell together
    with the memo dict), false = source before the repair (proxy shares the dict, copies the key). *)
-From V Require Import Common.NumFacts C14.Model C14.Proofs C14.ProofsDeep.
+From V Require Import Common.NumFacts C14.Model C14.Proofs C14.ProofsDeep C14.Sprog C14.Gen_Solvers C14.ModelPkg C14.ProofsPkg.
 
 (* MAIN.  After EVERY history of operations (reads of any property in any order, T / P / phase / phases
    changes, in-place flow edits, scaling, emptying, mixing, copy_like, link_with / unlink, proxies, flow
@@ -346,3 +346,52 @@ Proof.
   split; [reflexivity|]. eexists. split; [vm_compute; reflexivity|].
   intros E. unfold Qeq in E. vm_compute in E. discriminate E.
 Qed.
+
+(* PROPERTY PACKAGES WITH STATE (equation-of-state mixtures keep Mixture._free_energy_args between calls; H, S and Cn use
+   an entry of that dict instead of the arguments they are given).  The four temperature solvers, AS THEY ARE IN THE
+   SOURCE NOW (Gen_Solvers.v is regenerated from mixture.py on every run), leave the dict empty on every exit:
+   whatever it held, whatever is loaded, whether the numerical part returns a temperature or raises. *)
+Theorem C14_solvers_clear_free_energy_args : forall multi isS f loads out,
+  fst (exec (prog_for multi isS) f loads out) = [].
+Proof. exact exec_clears. Qed.
+Print Assumptions C14_solvers_clear_free_energy_args.
+
+(* ... hence after EVERY history of stream operations on such a package -- H / S specifications that fail (first solver
+   call, phase flip g <-> l, second solver call) included -- the dict is empty *)
+Theorem C14_free_energy_args_empty_after_every_history : forall ideal dep sk cv pops,
+  pw_fea (prun_world ideal dep sk cv pw0 pops) = [].
+Proof. intros ideal dep sk cv pops. apply prun_fea. reflexivity. Qed.
+Print Assumptions C14_free_energy_args_empty_after_every_history.
+
+(* ... and every property read returns what the package computes with an empty dict (what a freshly built, identical
+   package computes) for the stream's CURRENT phase(s), T, P and composition, or raises exactly when that raises.
+   [ideal] / [dep] are the ideal-mixture functions and the departure term (oracles). *)
+Theorem C14_eos_read_fresh : forall ideal dep cv,
+  calc1_respects (eos1 ideal dep []) -> calcx_respects (eosx ideal dep []) ->
+  forall pops i name flow nophase,
+    let pw := prun_world ideal dep true cv pw0 pops in
+    (i < length (cobjs (w_cs (pw_w pw))))%nat ->
+    rd_equiv (snd (get_property (eos1 ideal dep (pw_fea pw)) (eosx ideal dep (pw_fea pw)) (pw_w pw) i name flow nophase))
+             (spec_read (eos1 ideal dep []) (eosx ideal dep []) (pw_w pw) i name flow nophase).
+Proof. intros ideal dep cv H1 Hx. exact (eos_read_fresh ideal dep true cv eq_refl H1 Hx). Qed.
+Print Assumptions C14_eos_read_fresh.
+
+(* the worlds reachable with a stateful package are worlds reachable with its stateless functions: every theorem above
+   about [run_world] applies to them *)
+Theorem C14_eos_worlds_reachable : forall ideal dep sk cv pops,
+  exists ops, pw_w (prun_world ideal dep sk cv pw0 pops)
+              = run_world (eos1 ideal dep []) (eosx ideal dep []) sk cv w0 ops.
+Proof. intros ideal dep sk cv pops. exact (prun_reachable ideal dep sk cv pops pw0 eq_refl). Qed.
+Print Assumptions C14_eos_worlds_reachable.
+
+(* non-vacuity and necessity: a failed H specification on a gas stream (both solver calls raise) leaves the dict empty
+   with the source's solvers; with the try/finally flattened (load; solve; clear; return) the same history leaves the
+   entries of both phases behind, and a later read of H on ANOTHER composition uses them *)
+Definition eos_fail_ops : list pop :=
+  [PS (ONew [[1; 2; 0]] [0%nat] 300 65536 O); PSetHS O false false (Err ERuntime) (Err ERuntime)].
+Example C14_eos_failed_spec_leaves_nothing :
+  map fst (pw_fea (prun_world estub_ideal estub_dep true stub_cvol pw0 eos_fail_ops)) = [].
+Proof. vm_compute. reflexivity. Qed.
+Example C14_flattened_solver_leaks :
+  map fst (fst (exec (mksp [ALoad; ASolve; AClear; ARet] None []) [] [(0%nat, ([1; 2; 0], 65536))] (Err ERuntime))) = [0%nat].
+Proof. vm_compute. reflexivity. Qed.
